@@ -10,7 +10,7 @@ RULE = ('join correspondence: (hook level, feature verif_hooks) Line::extents, L
         'draw() (exact fill_solid rectangles) and the styled bounding box; thick triangles (all alignments, with and without fill, sharp and nearly '
         'flat ones) through pixels(), draw() and the styled bounding box; model = extracted Model/Join.v + Model/JoinTri.v. '
         'search p_translate (suite of C07.py) on thick triangles / polylines with coordinates within +-12 moved across the axes (join rounding ties); '
-        'search p_thick: pixels() = draw(), all pixels inside the styled bounding box, and for strokes with segments >= 6 widths and interior '
+        'search p_thick_join: pixels() = draw(), all pixels inside the styled bounding box, and for strokes with segments >= 6 widths and interior '
         'angles >= 15 degrees a real-number reference: every stroke pixel lies within 1.2 * reach + 1.5 of a segment or within the miter limit '
         '(2 widths + 2) of a join, and the inner 55 percent of the stroke band along every segment is covered')
 PARTIAL = ['C07_join_polyline_*_translate and C07_join_triangle_*_translate carry hypotheses on internal values (poly_nosat: no used rounded intersection reaches the saturating cast; '
@@ -189,8 +189,8 @@ def search(tier, rng):
     n = 2500 if tier == 'quick' else 50000
     for _ in range(n):
         w = rng.choice([2, 3, 3, 4, 5, 6, 7, 8, 10, 12])
-        yield J('p_thick poly', w, *flat(tame_path(rng, w, rng.choice([2, 3, 3, 4, 5]))))
-        yield J('p_thick tri', w, rng.randrange(3), *flat(tame_path(rng, w, 3, closed=True)))
+        yield J('p_thick_join poly', w, *flat(tame_path(rng, w, rng.choice([2, 3, 3, 4, 5]))))
+        yield J('p_thick_join tri', w, rng.randrange(3), *flat(tame_path(rng, w, 3, closed=True)))
         if rng.random() < 0.5:   # anything: pixels() = draw(), inside the styled bounding box
-            yield J('p_thick poly', width(rng), *flat(poly_pts(rng)))
-            yield J('p_thick tri', width(rng), rng.randrange(3), *flat(tri_pts(rng)))
+            yield J('p_thick_join poly', width(rng), *flat(poly_pts(rng)))
+            yield J('p_thick_join tri', width(rng), rng.randrange(3), *flat(tri_pts(rng)))
